@@ -30,24 +30,7 @@ func propC01(c *Ctx) {
 	insBlocks := ins.Call.Args[3]
 	c.Check("R1.1", "Converge/insert-gets-loaded-slice", ins.Pos(), loaded != nil && stripConv(m.reg.Resolve(stripConv(insBlocks))) == loaded,
 		"the blocks argument of insert is result #0 of load")
-	for _, spec := range []struct {
-		arg  int
-		meth string
-	}{{2, "Num"}, {3, "Hash"}} {
-		recv, ok := valueMethodArg(upd.Call.Args[spec.arg], "eth", "Block", spec.meth)
-		good := false
-		detail := "update argument is not eth.Block." + spec.meth + "() of a slice element"
-		if ok {
-			s, idx, ok2 := elemOf(recv)
-			if ok2 && sameVar(s, insBlocks) && isLenMinus1(idx, s) {
-				good = true
-				detail = "update receives " + spec.meth + "() of blocks[len(blocks)-1] of the inserted slice"
-			} else if ok2 {
-				detail = fmt.Sprintf("update receives %s() of an element that is not the last element of the inserted slice", spec.meth)
-			}
-		}
-		c.Check("R1.1", "Converge/update-"+strings.ToLower(spec.meth)+"-from-last-inserted", upd.Pos(), good, detail)
-	}
+	checkPositionFromLastInserted(c, "R1.1", upd, insBlocks)
 	c.Check("R1.1", "Converge/update-after-insert", upd.Pos(), m.dom(ins, upd) && m.dom(ld, ins), "load → insert → update execute in this order on every path")
 
 	c.Rule("R1.2", "the loaded range starts at recorded position + 1 and is linked against the hash recorded with that position", 2)
@@ -712,4 +695,28 @@ func loadStartsAfterPosition(m *convergeModel, ld *ssa.Call) (bool, int) {
 		})
 	}
 	return okStart, posArg
+}
+
+// checkPositionFromLastInserted: the number and hash handed to the cursor update are Num() and Hash() of the
+// last element of the inserted slice (shared by C01 – the position is the last block written – and C03 – the
+// hash the next step's parent comparison runs against is that of the block whose rows were written).
+func checkPositionFromLastInserted(c *Ctx, rule string, upd *ssa.Call, insBlocks ssa.Value) {
+	for _, spec := range []struct {
+		arg  int
+		meth string
+	}{{2, "Num"}, {3, "Hash"}} {
+		recv, ok := valueMethodArg(upd.Call.Args[spec.arg], "eth", "Block", spec.meth)
+		good := false
+		detail := "update argument is not eth.Block." + spec.meth + "() of a slice element"
+		if ok {
+			s, idx, ok2 := elemOf(recv)
+			if ok2 && sameVar(s, insBlocks) && isLenMinus1(idx, s) {
+				good = true
+				detail = "update receives " + spec.meth + "() of blocks[len(blocks)-1] of the inserted slice"
+			} else if ok2 {
+				detail = fmt.Sprintf("update receives %s() of an element that is not the last element of the inserted slice", spec.meth)
+			}
+		}
+		c.Check(rule, "Converge/update-"+strings.ToLower(spec.meth)+"-from-last-inserted", upd.Pos(), good, detail)
+	}
 }
